@@ -1,4 +1,6 @@
 """C05 — samples are fitted independently; batch size never changes or breaks a result."""
+import os
+import sys
 import numpy as np
 from common import F, rs, vs, ms, dyadic, close, call
 from systems import gen_A, gen_K, gen_baseline, apply_K
@@ -59,14 +61,15 @@ def run(R):
     ref = {}
     reqs = []
     for gi, (n, bs) in enumerate(grid):
-        R.driver.ask("p%d" % gi, "batchplan", n, batch_text(bs))
+        for model in models:
+            R.driver.ask("p%d_%s" % (gi, model), "batchplan", model, n, batch_text(bs))
     R.driver.run()
     for gi, (n, bs) in enumerate(grid):
-        t = R.driver.get("p%d" % gi)
-        bsz = t.nat(); nw = t.nat()
-        plan = [(t.nat(), t.bool(), t.nat(), t.nat()) for _ in range(nw)]
         B, outmask = targets(n, R.rng(7, n))
         for model in models:
+            t = R.driver.get("p%d_%s" % (gi, model))
+            bsz = t.nat(); nw = t.nat()
+            plan = [(t.nat(), t.bool(), t.nat(), t.nat()) for _ in range(nw)]
             k = "%s:n=%d:bs=%s" % (model, n, batch_text(bs))
             if not R.want(k):
                 continue
@@ -97,19 +100,26 @@ def run(R):
                 ref[key] = (np.array(X), np.array(Bp))
             reqs.append((c, model, n, bs, bsz, np.array(X), np.array(Bp), B, outmask))
     for c, model, n, bs, bsz, X, Bp, B, outmask in reqs:
-        X1, Bp1 = ref.get((model, n), (None, None))
-        if X1 is None:
-            continue
+        if (model, n) not in ref:
+            st1, o1 = call(fit, model, B, 1)
+            if st1 != "ok":
+                continue
+            ref[(model, n)] = (np.array(o1[0]), np.array(o1[1]))
+        X1, Bp1 = ref[(model, n)]
         sig = "C05:%s" % model
         cls = "bs>1" if bsz > 1 else "bs=1"
-        tol = 2e-2 if model == "excitation" else 2e-4
+        # solver accuracy: exponential-cone (poisson) and bisection (excitation) solves are only accurate to ~1e-3
+        tol = {"excitation": 2e-2, "poisson": 1e-2}.get(model, 2e-4)
+        if os.environ.get("VERIF_DEBUG"):
+            print("DEBUG", c["k"], float(np.abs(Bp - Bp1).max()), outmask.tolist(), file=sys.stderr)
         if X.shape != X1.shape or Bp.shape != Bp1.shape:
             R.failB(dict(c, impl=[X, Bp]), "result shapes differ from batch size 1", sig + ":shape:" + cls); continue
         if np.any(X < lb - 1e-6) or np.any(X > ub + 1e-6):
             R.failB(dict(c, impl=[X, Bp]), "intensities out of bounds", sig + ":bounds:" + cls); continue
         if model == "excitation":
             o, o1 = excit_obj(B, Bp), excit_obj(B, Bp1)
-            bad = np.abs(o - o1) > tol
+            # the objective lives in excitation units q/(1+q), which saturate: 1e-4 there is ~1e-2 capture units
+            bad = np.abs(o - o1) > 1e-4
             if np.any(bad):
                 R.failB(dict(c, impl=[X, Bp], ref_bs1=[X1, Bp1], objective=[o, o1]),
                         "excitation objective per row %s differs from the batch-size-1 result %s (rows %s)" % (o.tolist(), o1.tolist(), np.flatnonzero(bad).tolist()),
@@ -120,6 +130,40 @@ def run(R):
                 R.failB(dict(c, impl=[X, Bp], ref_bs1=[X1, Bp1]),
                         "predicted captures of rows %s differ from the batch-size-1 result by %.3g" % (np.flatnonzero(bad).tolist(), float(np.abs(Bp - Bp1).max())),
                         sig + ":differs-from-bs1:" + cls)
+
+    # per-sample weights: a joint fit must equal the row-by-row fits (each row alone with its own weight row),
+    # also when the products target*weight coincide on neighbouring rows (W = c / B, W = 'inverse')
+    for wi, wkind in enumerate(["inverse", "c_over_B", "random2d"]):
+        for bs in (1, 2):
+            k = "weights:%s:bs=%d" % (wkind, bs)
+            if not R.want(k):
+                continue
+            rng = R.rng(13, wi)
+            n = 4
+            Xt = dyadic(rng, 0.25, 1.75, 3, size=(n, ns))
+            Bw = Xt @ A.T
+            Bw[1] = Bw[1] * np.array([2.5, 0.5, 1.5]); Bw[2] = Bw[2] * np.array([0.5, 3.0, 1.0])   # out of gamut
+            if wkind == "inverse":
+                Wm = "inverse"; Wrows = 1.0 / Bw
+            elif wkind == "c_over_B":
+                Wrows = np.array([2.0, 2.0, 2.0, 0.5])[:, None] / Bw; Wm = Wrows
+            else:
+                Wrows = dyadic(rng, 0.25, 2, 2, size=(n, nf)); Wm = Wrows
+            c = dict(k=k, weights=wkind, batch_size=bs, A=A, B=Bw, W=Wrows)
+            R.count("weights:" + wkind)
+
+            def joint():
+                return lsq_linear(A, Bw, lb=lb, ub=ub, W=Wm, batch_size=bs, return_pred=True, solver="CLARABEL")[1]
+
+            def single():
+                return np.vstack([lsq_linear(A, Bw[i:i + 1], lb=lb, ub=ub, W=Wrows[i:i + 1], batch_size=1, return_pred=True, solver="CLARABEL")[1] for i in range(n)])
+            st, oj = call(joint); st2, os_ = call(single)
+            R.case(c, ("weights", wkind, bs), sample=(bs == 2 and wkind == "c_over_B"))
+            if st != "ok" or st2 != "ok":
+                R.failB(dict(c, impl_error=[oj, os_]), "fit with per-sample weights failed: %s %s" % (oj, os_), "C05:gaussian:weights:raises:%s" % (st if st != "ok" else st2)); continue
+            if np.abs(oj - os_).max() > 2e-4:
+                R.failB(dict(c, joint=oj, row_by_row=os_), "with per-sample weights (%s) the joint fit differs from fitting each row alone (max diff %.3g, rows %s)"
+                        % (wkind, float(np.abs(oj - os_).max()), np.flatnonzero(np.abs(oj - os_).max(axis=1) > 2e-4).tolist()), "C05:gaussian:weights-row-dependence:%s" % wkind)
 
     # metamorphic: permute / duplicate / drop / append rows
     for model in ["gaussian", "poisson"] + ([] if quick else ["minvar"]):
@@ -145,6 +189,6 @@ def run(R):
                     R.failB(dict(c, variant=name, impl_error=o2), "fit of %s rows failed: %s" % (name, o2), "C05:%s:raises:%s:%s" % (model, st2, "bs>1" if bs > 1 else "bs=1")); continue
                 exp = base_out[1][idx] if name != "append" else base_out[1]
                 got = o2[1] if name != "append" else o2[1][:n]
-                if np.abs(got - exp).max() > 2e-4:
+                if np.abs(got - exp).max() > (1e-2 if model == "poisson" else 2e-4):
                     R.failB(dict(c, variant=name, rows=idx, impl=o2[1], expected=exp), "%s of target rows did not %s the result rows (max diff %.3g)" % (name, name, float(np.abs(got - exp).max())),
                             "C05:%s:metamorphic-%s:%s" % (model, name, "bs>1" if bs > 1 else "bs=1"))
